@@ -87,6 +87,13 @@ def bd_problem(rng):
     n0, n1 = rng.choice([(1, 1), (1, 2), (2, 2)])
     N = n0 + n1
     E = sorted(rng.sample(range(0, 5), n0)) + sorted(rng.sample(range(7, 14), n1))
+    # an identically zero H_0 diagonal block (a degenerate level at zero energy filling a whole block): the
+    # eval returns the `zero` sentinel for it, and the front end must not look at higher orders to size it
+    zero_block = rng.random() < 0.4
+    if zero_block:
+        E = [0] * n0 + E[n0:]
+        if npar == 1 and rng.random() < 0.7:
+            npar = rng.choice([2, 3])
     terms = {}
     maxo = 3 if npar == 1 else 2
     for o in itertools.product(range(maxo + 2), repeat=npar):
@@ -95,7 +102,8 @@ def bd_problem(rng):
         if sum(o) == 1 or rng.random() < 0.5:
             a = [[rng.randint(-2, 2) for _ in range(N)] for _ in range(N)]
             terms[",".join(map(str, o))] = [[a[i][j] + a[j][i] for j in range(N)] for i in range(N)]
-    return dict(npar=npar, sizes=[n0, n1], E=E, terms=terms, hermitian=rng.random() < 0.6)
+    return dict(npar=npar, sizes=[n0, n1], E=E, terms=terms, hermitian=rng.random() < 0.6, zero_block=zero_block,
+                unsplit=rng.random() < 0.35)
 
 
 def bd_build(prob, log, forbid=None, scale_outside=None):
@@ -118,6 +126,8 @@ def bd_build(prob, log, forbid=None, scale_outside=None):
         if forbid is not None and not leq(n, forbid):
             raise AssertionError("Hamiltonian term %s touched outside the cone <= %s" % (n, forbid))
         if not any(n):
+            if i == j and prob.get("zero_block") and i == 0:
+                return zero
             return np.diag(E[sl[i]]) if i == j else zero
         if n in terms:
             t = terms[n][sl[i], sl[j]]
@@ -126,6 +136,25 @@ def bd_build(prob, log, forbid=None, scale_outside=None):
             return t
         return zero
 
+    def ev_full(*orders):
+        # the Hamiltonian as one (not yet split) lazily defined series; the front end splits it
+        n = tuple(int(i) for i in orders)
+        log.append((-1, -1) + n)
+        if forbid is not None and not leq(n, forbid):
+            raise AssertionError("Hamiltonian term %s touched outside the cone <= %s" % (n, forbid))
+        if not any(n):
+            return np.diag(E)
+        if n in terms:
+            t = terms[n]
+            if scale_outside is not None and not leq(n, scale_outside[0]):
+                t = t * scale_outside[1]
+            return t
+        return zero
+
+    if prob.get("unsplit"):
+        H = BlockSeries(eval=ev_full, shape=(), n_infinite=npar, name="H")
+        out = block_diagonalize(H, subspace_indices=[0] * n0 + [1] * n1, hermitian=prob["hermitian"])
+        return out, H
     H = BlockSeries(eval=ev, shape=(2, 2), n_infinite=npar, name="H")
     out = block_diagonalize(H, hermitian=prob["hermitian"])
     return out, H
@@ -139,6 +168,10 @@ def bd_check(prob, reqs):
         return "zero" if v is zero else "one" if v is one else np.array(v).tolist()
 
     log = []
+    try:
+        bd_build(prob, [], forbid=(0,) * prob["npar"])
+    except AssertionError as e:
+        return "defining the block diagonalization failed when only zeroth-order terms are available: %s" % e
     out, H = bd_build(prob, log)
     if any(any(e[2:]) for e in log):
         return "defining the block diagonalization evaluated a non-zeroth-order term %s" % ([e for e in log if any(e[2:])][0],)
